@@ -524,3 +524,140 @@ class CallHook(object):
         if hook_events and hook_events[-1] == 'hook_failure' and obs['result'] is not inp['ignore']:
             bad.add('post[4]')
         return bad
+
+
+# ---------------------------------------------------------------------------- notify_event
+@register('circus.watcher:Watcher.notify_event')
+class NotifyEvent(object):
+    """real Watcher.notify_event with a recording PUB socket"""
+    def from_model(self, m):
+        return []
+
+    def enumerate(self):
+        for topic in ('spawn', 'reap', 'kill', 'start', 'stop', 'hook_success', 'updated'):
+            for msg in ({'time': 1.5}, {'process_pid': 12, 'time': 2}, {'process_pid': 7, 'exit_code': -9, 'time': 0}):
+                for sock in ('open', 'closed', 'none'):
+                    yield {'topic': topic, 'msg': msg, 'socket': sock, 'name': 'web.App'}
+
+    def run(self, inp):
+        import json
+        w = real_watcher()
+        w.name = inp['name']
+        w.res_name = inp['name'].lower().replace(' ', '_')
+        sent = []
+
+        class Sock(object):
+            closed = inp['socket'] == 'closed'
+
+            def send_multipart(self, parts):
+                sent.append(list(parts))
+        w.evpub_socket = None if inp['socket'] == 'none' else Sock()
+        obs = {}
+        try:
+            w.notify_event(inp['topic'], dict(inp['msg']))
+        except Exception as e:
+            obs['raised'] = type(e).__name__
+        obs['n'] = len(sent)
+        if sent:
+            obs['topic'] = sent[0][0].decode('utf8')
+            obs['body'] = json.loads(sent[0][1])
+            obs['frames'] = len(sent[0])
+        obs['res_name'] = w.res_name
+        return obs
+
+    def check(self, inp, obs):
+        bad = set()
+        if 'raised' in obs:
+            return set(['noescape'])
+        if inp['socket'] != 'open':
+            if obs['n']:
+                bad.add('post[2]')
+            return bad
+        if obs['n'] != 1:
+            bad.add('post[0]')
+            return bad
+        if obs['topic'] != 'watcher.%s.%s' % (obs['res_name'], inp['topic']):
+            bad.add('post[wire-topic]')
+        if obs['body'] != inp['msg'] or obs['frames'] != 2:
+            bad.add('post[wire-body-is-the-message]')
+        return bad
+
+
+# ---------------------------------------------------------------------------- Process.spawn
+@register('circus.process:Process.spawn')
+class ProcessSpawn(object):
+    """real Process.spawn with psutil.Popen replaced by a recorder (nothing is executed)"""
+    def from_model(self, m):
+        return []
+
+    def enumerate(self):
+        for use_fds in (False, True):
+            for pipes in ((True, True), (False, True), (False, False)):
+                for wd in ('/tmp', None):
+                    for env in ({'A': 'b'}, {}):
+                        yield {'use_fds': use_fds, 'pipe_stdout': pipes[0], 'pipe_stderr': pipes[1],
+                               'working_dir': wd, 'env': env, 'shell': False}
+
+    def run(self, inp):
+        import circus.process as P
+        calls = []
+
+        class FakePopen(object):
+            pid = 4242
+
+            def __init__(self, args, **kw):
+                calls.append((list(args), dict((k, v) for k, v in kw.items() if k != 'preexec_fn')))
+        p = P.Process.__new__(P.Process)
+        p.name = 'x'
+        p.wid = 1
+        p.cmd = 'sleep 1'
+        p.args = ['2']
+        p.working_dir = inp['working_dir']
+        p.shell = inp['shell']
+        p.env = inp['env']
+        p.use_fds = inp['use_fds']
+        p.executable = None
+        p.pipe_stdout = inp['pipe_stdout']
+        p.pipe_stderr = inp['pipe_stderr']
+        p.close_child_stdin = p.close_child_stdout = p.close_child_stderr = False
+        p.uid = p.gid = None
+        p.rlimits = {}
+        p.watcher = None
+        p._sockets = []
+        p.username = None
+        saved = P.Popen
+        P.Popen = FakePopen
+        obs = {}
+        try:
+            expected = p.format_args(sockets_fds=None)
+            p.spawn()
+        except Exception as e:
+            obs['raised'] = type(e).__name__
+        finally:
+            P.Popen = saved
+        obs['calls'] = [[a, dict((k, (v if isinstance(v, (int, str, bool, type(None), dict)) else repr(v)))
+                                 for k, v in kw.items())] for a, kw in calls]
+        obs['expected_argv'] = expected if 'raised' not in obs else None
+        return obs
+
+    def check(self, inp, obs):
+        bad = set()
+        if 'raised' in obs:
+            return set(['noescape'])
+        if len(obs['calls']) != 1:
+            bad.add('post[one-exec]')
+            return bad
+        argv, kw = obs['calls'][0]
+        if argv != obs['expected_argv']:
+            bad.add('post[argv-is-format-args]')
+        if kw.get('cwd') != inp['working_dir']:
+            bad.add('post[configured-cwd]')
+        if kw.get('env') != inp['env']:
+            bad.add('post[configured-env]')
+        if kw.get('close_fds') is not (not inp['use_fds']):
+            bad.add('post[no-fd-leak-without-use-fds]')
+        if kw.get('shell') != inp['shell']:
+            bad.add('post[shell-and-executable]')
+        if (kw.get('stdout') == -1) != inp['pipe_stdout'] or (kw.get('stderr') == -1) != inp['pipe_stderr']:
+            bad.add('post[pipes-as-configured]')
+        return bad
